@@ -1,12 +1,125 @@
 package main
 
-// Environment stubs (os, mmap, fcntl) and the C20 frame check.
+// Environment stubs (file system for the journal probe) and the C20 frame
+// check. The stubs are contracts, not implementations: every one is listed in
+// the evidence under assumptions when used.
 
 import (
 	"fmt"
+	"go/types"
+
+	"golang.org/x/tools/go/ssa"
 )
 
+// ghost file: set by the harness with verifSetFile(name, content, length, mode)
+// mode: 0 = exists, 1 = does not exist, 2 = open fails with another error
+type ghostFile struct {
+	content SliceV
+	length  *Term
+	mode    int
+}
+
+func (ex *Exec) fileOf(st *State, name string) (ghostFile, bool) {
+	if st.files == nil {
+		return ghostFile{}, false
+	}
+	f, ok := st.files[name]
+	return f, ok
+}
+
 func (ex *Exec) registerStubs() {
+	tt := ex.tt
+	I := ex.intr
+	I["verif:verifsetfile"] = func(ex *Exec, st *State, _ *ssa.CallCommon, a []Value) []Outcome {
+		name := ex.argStr(st, a[0])
+		nf := map[string]ghostFile{}
+		for k, v := range st.files {
+			nf[k] = v
+		}
+		nf[name] = ghostFile{content: a[1].(SliceV), length: a[2].(*Term), mode: ex.argInt(a[3])}
+		st.files = nf
+		return ret1(st, nil)
+	}
+	fileT := func() types.Type {
+		return ex.prog.ImportedPackage("os").Type("File").Type()
+	}
+	I["os.Open"] = func(ex *Exec, st *State, _ *ssa.CallCommon, a []Value) []Outcome {
+		ex.assumes["os.Open/(*os.File).Read/Close are stubs over a harness-defined ghost file (content bytes + symbolic length); reads return min(len(buf), remaining) bytes"] = true
+		name := ex.argStr(st, a[0])
+		f, ok := ex.fileOf(st, name)
+		if !ok || f.mode == 1 {
+			return ret1(st, TupleV{Ptr{}, ex.newError(st, "stub: file does not exist")})
+		}
+		if f.mode == 2 {
+			return ret1(st, TupleV{Ptr{}, ex.newError(st, "stub: permission denied")})
+		}
+		id := st.alloc(fileT(), &StructV{[]Value{Ptr{}}}, "file:"+name)
+		if st.filePos == nil {
+			st.filePos = map[int]*Term{}
+		} else {
+			np := map[int]*Term{}
+			for k, v := range st.filePos {
+				np[k] = v
+			}
+			st.filePos = np
+		}
+		st.filePos[id] = tt.BV(0, 64)
+		if st.fileName == nil {
+			st.fileName = map[int]string{}
+		}
+		st.fileName[id] = name
+		return ret1(st, TupleV{Ptr{obj: id}, IfaceV{}})
+	}
+	I["os.IsNotExist"] = func(ex *Exec, st *State, _ *ssa.CallCommon, a []Value) []Outcome {
+		e := a[0].(IfaceV)
+		if e.typ == nil {
+			return ret1(st, tt.False)
+		}
+		return ret1(st, tt.Bool(ex.describe(st, e) == "stub: file does not exist"))
+	}
+	I["(*os.File).Close"] = func(ex *Exec, st *State, _ *ssa.CallCommon, a []Value) []Outcome {
+		return ret1(st, IfaceV{})
+	}
+	I["(*os.File).Read"] = func(ex *Exec, st *State, _ *ssa.CallCommon, a []Value) []Outcome {
+		fp := a[0].(Ptr)
+		buf := a[1].(SliceV)
+		name, ok := st.fileName[fp.obj]
+		if !ok {
+			unsup("Read on a file the stub did not open")
+		}
+		f, _ := ex.fileOf(st, name)
+		pos := st.filePos[fp.obj]
+		remaining := tt.Sub(f.length, pos)
+		eofErr := IfaceV{}
+		// EOF when nothing remains and the buffer is non-empty
+		atEOF := tt.BAnd(tt.Sle(remaining, tt.BV(0, 64)), tt.Slt(tt.BV(0, 64), buf.len))
+		sE, sR := ex.split(st, atEOF)
+		var outs []Outcome
+		if sE != nil {
+			eofErr = ex.newError(sE, "EOF")
+			outs = append(outs, Outcome{st: sE, ret: TupleV{tt.BV(0, 64), eofErr}})
+		}
+		if sR != nil {
+			n := tt.Ite(tt.Slt(buf.len, remaining), buf.len, remaining)
+			if ex.capBound(sR, buf) <= 4096 {
+				src := SliceV{obj: f.content.obj, pre: f.content.pre, off: tt.Add(f.content.off, pos), len: n, cap: n}
+				dst := SliceV{obj: buf.obj, pre: buf.pre, off: buf.off, len: n, cap: n}
+				if buf.obj != 0 {
+					ex.doCopy(sR, dst, src)
+				}
+			} else {
+				ex.assumes["file reads into buffers larger than 4096 bytes leave the buffer content unmodelled (only the byte count is)"] = true
+			}
+			np := map[int]*Term{}
+			for k, v := range sR.filePos {
+				np[k] = v
+			}
+			np[fp.obj] = tt.Add(pos, n)
+			sR.filePos = np
+			outs = append(outs, Outcome{st: sR, ret: TupleV{n, IfaceV{}}})
+		}
+		return outs
+	}
 }
 
 // installFrameCheck records every store whose target is an object that
@@ -18,6 +131,10 @@ func (ex *Exec) installFrameCheck() {
 			return
 		}
 		o := st.obj(obj)
-		ex.sharedWrites = append(ex.sharedWrites, fmt.Sprintf("store to package-level object %q", o.name))
+		where := ""
+		if ex.cur != nil {
+			where = " at " + ex.pos(ex.cur)
+		}
+		ex.sharedWrites = append(ex.sharedWrites, fmt.Sprintf("store to package-level object %q%s", o.name, where))
 	}
 }
